@@ -22,7 +22,7 @@ pub enum Algo {
     Preset { algo: u8, preset: u8 },
 }
 
-pub fn make(a: Algo) -> (Box<dyn Compress + Send>, Box<dyn Decompress + Send>, &'static str) {
+pub fn make(a: Algo) -> (Box<dyn Compress + Send + Sync>, Box<dyn Decompress + Send + Sync>, &'static str) {
     fn preset<T: CompressionLevel>(t: T, p: u8) -> T {
         match p % 3 {
             0 => t.fastest(),
@@ -372,4 +372,18 @@ pub fn run(ctx: &mut Ctx) {
 
 pub fn replay(id: &str, case: &serde_json::Value) -> i32 {
     crate::core::replay_case::<Case>(id, case, 1, eval)
+}
+
+/// wrappers so that boxed trait objects can be handed to the client builders
+pub struct CompBox(pub Box<dyn Compress + Send + Sync>);
+impl Compress for CompBox {
+    fn compress(&self, i: Bytes) -> anyhow::Result<Bytes> {
+        self.0.compress(i)
+    }
+}
+pub struct DecompBox(pub Box<dyn Decompress + Send + Sync>);
+impl Decompress for DecompBox {
+    fn decompress(&self, i: Bytes) -> anyhow::Result<Bytes> {
+        self.0.decompress(i)
+    }
 }
